@@ -209,6 +209,7 @@ func UseSites() []UseSite {
 		// the annotated method reached through embedding (promoted)
 		{Tag: "mcall promoted em.Reset()", Stmt: "em.Reset()", Kind: UKMethod, TONL: true, Core: true},
 		{Tag: "mcall promoted local struct{S}.Reset()", Stmt: "func() { type lw struct{ {q}S }; var w lw; w.Reset() }()", Kind: UKMethod, TONL: true},
+		{Tag: "mcall promoted through the package's own OwnEmb{}.Reset()", Stmt: "OwnEmb{}.Reset()", Kind: UKMethod, TONL: true, Core: true},
 		{Tag: "mcall promoted *Emb ResetP()", Stmt: "(&em).ResetP()", Kind: UKMethod, TONL: true},
 		// function-local aliases: the same spelling "LA" denotes the annotated type in one block and the twin in another
 		{Tag: "local alias LA=Mock; var v LA", Stmt: "{ type LA = {q}Mock; var $v LA; _ = $v }", Kind: UKType, Type: "Mock", TONL: true, Core: true},
@@ -637,6 +638,9 @@ func RenderUse(s *UseSpec) *UseRendered {
 	w0.add("func hs() " + q + "S { return " + q + "S{} }")
 	w0.add("")
 	w0.add("func hsp() *" + q + "S { return nil }")
+	w0.add("")
+	w0.add("// OwnEmb is this package's own (package-level) struct; it embeds d's S, whose annotated methods are promoted.")
+	w0.add("type OwnEmb struct{ " + q + "S }")
 	w0.add("")
 	if !inD && !dot {
 		w0.add("// Helper and Mock are this package's own, unannotated items; they only share their names with d's.")
